@@ -378,7 +378,7 @@ def run(tier):
         ck.violation("tie-broken:proof", "Props/C09.v no longer checks", getattr(ck, "proof_output", "")[-2000:])
     ck.coverage.update(
         evaluations=len(cases) + len(ssrcs) + len(bsrcs), distinct_nontrivial=len(distinct),
-        rule="integer matrix: 11 integer types x boundary values (0, 1, max, max+1, min, min-1, 2^32, 2^64, 2^127, 2^128-1, 2^128, ...) plus random values x {decimal, hex upper/lower, binary} x {underscores} x {suffix} x {unary minus}, in every place a literal can stand (initialiser, return value, call argument, assignment, array element, if condition, structure member, constant): run-time value must be the value modulo 2^N, L1142 iff out of range, E140 beyond 128 bits; every byte as \\xHH in a char literal, all printable characters, all simple escapes; random strings with simple, \\x, \\u{} escapes, raw multi-byte characters and adjacent-literal concatenation (length and every byte printed); malformed forms with their documented codes; distinct = distinct (type, spelling)",
+        rule="integer matrix: 11 integer types x boundary values (0, 1, max, max+1, min, min-1, 2^32, 2^64, 2^127, 2^128-1, 2^128, ...) plus random values x {decimal, hex upper/lower, binary} x {underscores} x {suffix} x {unary minus}, in every place a literal can stand (initialiser, return value, call argument, assignment, array element, if condition, structure member, constant): run-time value must be the value modulo 2^N, L1142 iff out of range, E140 beyond 128 bits; every byte as \\xHH in a char literal, all printable characters, all simple escapes; random strings with simple, \\x, \\u{} escapes, raw multi-byte characters and adjacent-literal concatenation (length and every byte printed); malformed forms with their documented codes; distinct = distinct (type, spelling); every string literal stands in one of four places in turn (sized array variable, slice argument, constant, slice variable)",
         integer_stats=dict(stats), integer_problems=mism, string_problems=smism,
         samples=[dict(literal=cases[5]["text"], type=cases[5]["t"], result=impl.get("i5", ["?"])[:2]), dict(source=ssrcs[-1][1][:300])])
     ck.assumptions += ["the spelling -> token step (lexing) is proved on the lexer model (C14) and exercised here end to end",
